@@ -18,6 +18,18 @@ CHECKS = {
                 text="Same explorer as C05 with 4 configurations (security on/off x blocklist); every transition (snapshot before, event, snapshot after) is checked against a reference admission/eviction policy written from the property text: only the direct sender of a query / matched response / AddNode may appear, never hearsay, unsolicited, mismatched, read-only, blocked or BEP42-invalid senders; at most one eviction, only of a bad or never-responded (when the newcomer just answered) entry in a full bucket; no good entry ever disappears; eligible senders are admitted when the bucket has room.",
                 note="reference goodness/BEP42 rules are independent re-implementations; eviction victim choice (Go map order) is not enumerated, any victim that occurs is checked; AddNode of a blocklisted address is outside the property (the blocklist concerns datagrams)",
                 ref="DESIGN.md 5/C06"),
+    "C17": dict(level="exploration", technique=E3,
+                text="Exhaustive for IPv4: all 2^20 values of the masked address bits x 8 seeds through SecureNodeId and NodeIdSecure against an independent bitwise CRC32-C reference (only the first 21 bits change, idempotent, verifies, verification agrees with the reference also on 28 neighbours of each secured ID on a sub-lattice; unmasked bits and the 4/16-byte form do not matter on a 2^12 sub-lattice); IPv6 36-bit lattice (singles and pairs) x 8 seeds x fill; 322-ID lattice; published BEP 42 vectors; first/last address of every exempt range and their outer neighbours; Server.ID() over public-IP configurations.",
+                note="IPv6 and the ID space are covered by a structured lattice, not exhaustively; hash/crc32 is not trusted (own bitwise reference) but net.IP parsing is",
+                ref="DESIGN.md 5/C17"),
+    "C15": dict(level="exploration", technique=E3,
+                text="Bounded exhaustive enumeration: every alternative and every pair of alternatives of every Msg/MsgArgs/Return field plus the full presence product of pointer/omitempty fields (about 10^4 messages) through encode/decode/deep-equal; the complete one-edit neighbourhood (all truncations, 10 structural byte substitutions per position) of a 42-datagram corpus through decode/re-encode/fixpoint; every compact list decoder in binary and bencoded form on every length 0..3*size+1 x 3 fills (accepted iff multiple of the entry size, identical re-encoding); every other exported UnmarshalBinary/UnmarshalBencode on lengths 0..120; nodes-file round trip. Every call runs under recover: a panic is a violation.",
+                note="'all byte strings' is reached as a grammar plus one-edit neighbourhood, not all strings; bencode library trusted; ID.UnmarshalText and ID acceptance of over-long strings are outside the property's quantifier and not checked",
+                ref="DESIGN.md 5/C15"),
+    "C18": dict(level="exploration", technique=E3,
+                text="Bounded exhaustive enumeration of algebraic laws: all ordered pairs of a 331-ID lattice (symmetry, identity, unsigned order, bit length, bucket index == shared prefix length against math/big and a bit loop), all bit positions for GetBit/SetBit, random IDs for all 160 buckets x 3 roots, closer-than over a 24-candidate universe x 4 targets (all pairs and all 13824 triples: irreflexive, antisymmetric, total, transitive, known-before-unknown, distance-monotone), every push sequence of length <= 6 over 6 elements into the K-nearest container (K=1..3) and every add/delete sequence of length <= 5 over 5 elements into the sorted candidate set against a sorted-slice reference.",
+                note="IDs outside the lattice and longer sequences are not covered; equal-distance ties may be retained either way (maphash tie-break is not observed)",
+                ref="DESIGN.md 5/C18"),
 }
 
 NOT_YET = {}
